@@ -139,7 +139,7 @@ func runC19(c *an.Ctx) {
 		}
 		// C19.dir
 		isFS := false
-		for _, b := range bex {
+		for _, b := range append(append([]backing{}, bex...), bop...) { // a loader whose Exists goes through its own Open is as file-system backed as its Open
 			if b.fs {
 				isFS = true
 			}
